@@ -20,6 +20,7 @@ PARTS += ["chordfns_rotate"]
 PARTS += ["segindex"]
 PARTS += ["utilint"]      # mir_eval/util.py interval pre-processing -> MirGen/UtilInt.lean (C13)
 PARTS += ["multipitch"]   # mir_eval/multipitch.py count functions, resampling, metrics -> MirGen/Multipitch.lean (C18)
+PARTS += ["melody"]       # mir_eval/melody.py frame metrics, validation, freq_to_voicing, time base -> MirGen/Melody.lean (C04)
 
 
 def write_if_changed(path, text):
